@@ -174,6 +174,18 @@ def _kani_unit(unit, tier, seed, pid=None):
             out_all, meta, out, err = R.run_kani(unit["name"], crate_dir, [h["name"] for h in hl], timeout=unit.get("timeout", 3000), harness_timeout=unit.get("harness_timeout", 900),
                                                  jobs=unit.get("jobs", 8), extra=list(extra) + unit.get("kani_args", []))
             res.meta = meta
+            if not out_all and unit["mode"] != "M" and re.search(r"error\[E0(?:308|277|369)\]", out + err):
+                extra_items = _missing_helpers(crate_dir, unit, kani_err=out + "\n" + err)
+                if extra_items:
+                    unit = dict(unit, items=list(unit["items"]) + extra_items)
+                    res.unit = unit
+                    text, cuts, counter = U.gen_kani(unit)
+                    counter["auto.followed_trait_impl"] = len(extra_items)
+                    res.cuts, res.counter = cuts, dict(counter)
+                    crate_dir = R.kani_crate(unit["name"], text, unit.get("deps_toml", ""))
+                    out_all, meta, out, err = R.run_kani(unit["name"], crate_dir, [h["name"] for h in hl], timeout=unit.get("timeout", 3000), harness_timeout=unit.get("harness_timeout", 900),
+                                                         jobs=unit.get("jobs", 8), extra=list(extra) + unit.get("kani_args", []))
+                    res.meta = meta
             # resource pressure is not a verdict: a harness that ran out of memory or time while running next to others gets one run of its own
             starved = [k for k, r in out_all.items() if r["status"] == "undecided" and (r.get("timed_out") or "out of memory" in r.get("raw", ""))]
             if starved and len(out_all) > 1:
@@ -281,7 +293,7 @@ def _native_playback(unit, crate_dir, test_text):
     return {"error": "could not run playback", "output": out[-800:]}
 
 
-def _missing_helpers(crate_dir, unit):
+def _missing_helpers(crate_dir, unit, kani_err=None):
     """cargo check of the generated crate; for every `cannot find function X` look for a top-level `fn X` in the unit's source files"""
     env = dict(R.KANI_ENV, CARGO_TARGET_DIR=os.path.join(R.BUILD, "kani-target", unit["name"] + "-check"))
     try:
@@ -316,7 +328,10 @@ def _missing_helpers(crate_dir, unit):
                 continue
             found.append({"file": f, "path": path})
             break
-    if not found and p.returncode != 0:
+    # (plain `cargo check` always fails on units whose shims call kani::any -- E0433 -- so a failure alone means nothing; only type/trait errors
+    #  that name a type under extraction justify pulling in trait impls)
+    trait_errs = re.findall(r"error\[E0(?:308|277|369)\][^\n]*\n(?:[^\n]*\n){0,12}", kani_err or "")
+    if not found and trait_errs:
         # new TRAIT IMPLS for a struct/enum that is under extraction (e.g. a hand-written `impl PartialEq<X> for T` replacing a derive):
         # pull in every top-level `impl <Trait> for T` of the unit's source files that is not part of the unit yet
         types = set(it["path"].split()[-1] for it in unit["items"] if it["path"].split()[0] in ("struct", "enum"))
@@ -330,10 +345,12 @@ def _missing_helpers(crate_dir, unit):
                     continue
                 ty = re.sub(r"<.*", "", it.header.split(" for ")[-1].split(" where ")[0]).strip()
                 path = rc.norm(it.header.split("{")[0]).strip()
-                trait = re.sub(r"<.*", "", it.header.split(" for ")[0].replace("impl", "", 1)).strip().split("::")[-1]
+                head = it.header.split(" for ")[0]
+                head = re.sub(r"^impl\s*(<[^>]*>)?\s*", "", head)          # drop `impl` and its generic parameter list
+                trait = re.sub(r"<.*", "", head).strip().split("::")[-1]
                 if trait in ("Debug", "Display", "Serialize", "Deserialize", "Error", "Drop"):
                     continue      # formatting / serde impls are never needed by a contract and drag in crates the unit does not have
-                if ty in types and path not in have and not any(h.startswith(path + "/") or h == path for h in have):
+                if ty in types and any(ty in e for e in trait_errs) and path not in have and not any(h.startswith(path + "/") or h == path for h in have):
                     found.append({"file": f, "path": path})
     return found
 
